@@ -412,6 +412,83 @@ var statusPool = []int{201, 202, 204, 206, 301, 302, 304, 400, 400, 401, 403, 40
 var accessPool = []string{"at-m%d-123", "ya29.m%d.a0Af_x-y", "tab\tinside-m%d", "é-non-ascii-m%d", " lead-m%d-and-trail "}
 var badHeaderPool = []string{"ctl\x00zero", "line\nfeed", "cr\rhere", "del\x7f", "esc\x1b"}
 
+// ---------------------------------------------------------------------------------------------
+// response headers and framing (a case dimension of every endpoint and provider; the unchanged
+// code reads no response header, so for the model only what the HTTP layer makes of them counts)
+
+var hdrNumPool = []string{"0", "0", "1", "-1", "-0", "600", "599", "100", "99999999999999999999", "9223372036854775807", "-9223372036854775808",
+	"abc", "", " ", "1.5", "1e3", "0x10", "+5", "007", "12 ", "1,2", "NaN", "\u0661\u0662"}
+
+func rateFamily(r *c.Rng) [][2]string {
+	var out [][2]string
+	var names []string
+	switch r.Intn(5) {
+	case 0, 1:
+		names = []string{"X-Rate-Limit-Limit", "X-Rate-Limit-Remaining", "X-Rate-Limit-Reset"}
+	case 2:
+		names = []string{"RateLimit-Limit", "RateLimit-Remaining", "RateLimit-Reset", "RateLimit-Policy"}
+	case 3:
+		names = []string{"X-RateLimit-Limit", "X-RateLimit-Remaining", "X-RateLimit-Reset", "X-RateLimit-Used"}
+	default:
+		names = []string{"Retry-After", "x-rate-limit-limit", "X-RATE-LIMIT-REMAINING"}
+	}
+	for _, n := range names {
+		if r.Chance(0.85) {
+			out = append(out, [2]string{n, r.Pick(hdrNumPool)})
+			if r.Chance(0.12) { // duplicated, possibly with another value
+				out = append(out, [2]string{n, r.Pick(hdrNumPool)})
+			}
+		}
+	}
+	return out
+}
+
+func miscHeaders(r *c.Rng, status int) [][2]string {
+	pool := [][2]string{
+		{"Content-Type", "text/html"}, {"Content-Type", "application/json; charset=utf-16"}, {"Content-Type", "application/json;charset=\""},
+		{"Content-Type", ""}, {"Content-Type", "application/x-www-form-urlencoded"}, {"Content-Type", "APPLICATION/JSON ; q=0"},
+		{"Set-Cookie", "sid=abc; Path=/; HttpOnly"}, {"Set-Cookie", "_sso_auth_google=forged; Domain=example.com"},
+		{"WWW-Authenticate", `Bearer realm="idp", error="invalid_token"`}, {"WWW-Authenticate", "Basic"},
+		{"Retry-After", "0"}, {"Retry-After", "-1"}, {"Retry-After", "Wed, 21 Oct 2015 07:28:00 GMT"}, {"Retry-After", "soon"},
+		{"Cache-Control", "no-store"}, {"Pragma", "no-cache"}, {"Expires", "0"}, {"Age", "-5"}, {"Date", "yesterday"},
+		{"X-Okta-Request-Id", "reqVy8wsvmBQN27h4soUE3ZEnA"}, {"x-amzn-RequestId", "00000000-0000"}, {"Server", "nginx"},
+		{"Link", `<https://idp.example/next>; rel="next"`}, {"Vary", "*"}, {"ETag", `W/"0"`}, {"Content-Language", "tlh"},
+		{"Strict-Transport-Security", "max-age=0"}, {"X-Content-Type-Options", "nosniff"}, {"Content-Disposition", `attachment; filename="a.json"`},
+		{"Content-Range", "bytes 0-0/0"}, {"Accept-Ranges", "bytes"}, {"Alt-Svc", `h2=":443"`}, {"Refresh", "0; url=https://evil.org/"},
+		{"X-Long", strings.Repeat("a", 5000)},
+	}
+	if status < 300 || status >= 400 {
+		pool = append(pool, [2]string{"Location", "https://evil.org/"}, [2]string{"Location", "/elsewhere"}, [2]string{"Content-Location", "/x"})
+	}
+	var out [][2]string
+	for i := 1 + r.Intn(3); i > 0; i-- {
+		out = append(out, pool[r.Intn(len(pool))])
+	}
+	return out
+}
+
+// dressAnswer decides the response headers and the framing of an answer that is otherwise complete
+func dressAnswer(r *c.Rng, a *answerSpec) string {
+	if a.Transport != 0 {
+		return ""
+	}
+	var note []string
+	if r.Chance(0.4) {
+		a.Headers = append(a.Headers, rateFamily(r)...)
+		note = append(note, "rate-limit-headers")
+	}
+	if r.Chance(0.2) {
+		a.Headers = append(a.Headers, miscHeaders(r, a.Status)...)
+		note = append(note, "misc-headers")
+	}
+	if r.Chance(0.1) {
+		a.Wire = 1 + r.Intn(wireCount-1)
+		note = append(note, "wire:"+wireName[a.Wire])
+	}
+	r.Shuffle(len(a.Headers), func(i, j int) { a.Headers[i], a.Headers[j] = a.Headers[j], a.Headers[i] })
+	return strings.Join(note, ",")
+}
+
 func genTok(r *c.Rng, prov string) (answerSpec, *tokClass, string) {
 	var note []string
 	var access, refresh, expires, idt rv
@@ -491,6 +568,9 @@ func genTok(r *c.Rng, prov string) (answerSpec, *tokClass, string) {
 		}
 		note = append(note, "mangled:"+how)
 	}
+	if d := dressAnswer(r, &a); d != "" {
+		note = append(note, d)
+	}
 	return a, intended, strings.Join(note, ",")
 }
 
@@ -564,6 +644,9 @@ func genUI(r *c.Rng, prov string) (answerSpec, *userClass, string) {
 			intended = nil
 		}
 		note = append(note, "mangled:"+how)
+	}
+	if d := dressAnswer(r, &a); d != "" {
+		note = append(note, d)
 	}
 	return a, intended, strings.Join(note, ",")
 }
@@ -842,6 +925,52 @@ func corpus() []group {
 			g.Members = append(g.Members, m)
 		}
 		gs = append(gs, g)
+	}
+	// --- response headers and framing: the unchanged code reads none of them; no answer may crash the request
+	hdrSets := [][][2]string{
+		{{"X-Rate-Limit-Limit", "0"}, {"X-Rate-Limit-Remaining", "5"}, {"X-Rate-Limit-Reset", "0"}},
+		{{"X-Rate-Limit-Limit", "0"}, {"X-Rate-Limit-Remaining", "0"}},
+		{{"X-Rate-Limit-Limit", "-1"}, {"X-Rate-Limit-Remaining", "99999999999999999999"}},
+		{{"X-Rate-Limit-Limit", "abc"}, {"X-Rate-Limit-Remaining", ""}, {"X-Rate-Limit-Limit", "600"}},
+		{{"RateLimit-Limit", "0"}, {"RateLimit-Remaining", "0"}, {"RateLimit-Reset", "-1"}, {"Retry-After", "0"}},
+		{{"X-RateLimit-Limit", "0"}, {"X-RateLimit-Remaining", "1"}, {"Retry-After", "soon"}},
+		{{"Content-Type", "text/html"}, {"Set-Cookie", "_sso_auth_okta=forged"}, {"Location", "https://evil.org/"}, {"WWW-Authenticate", "Bearer"}},
+		{{"X-Long", strings.Repeat("z", 30000)}},
+	}
+	for _, cfg := range []int{0, 1, 2} {
+		for j, hs := range hdrSets {
+			for _, where := range []string{"token", "userinfo", "both"} {
+				if cfgPool[cfg].Type == "google" && where == "userinfo" {
+					continue
+				}
+				for _, status := range []int{200, 400, 429} {
+					m := login(j, "alice@example.com", claims("alice@example.com", `,"email_verified":true`), ui("alice@example.com", `,"email_verified":true,"username":"u"`))
+					if where != "userinfo" {
+						m.Tok.Headers, m.Tok.Status = hs, status
+					}
+					if where != "token" {
+						m.UI.Headers = hs
+						if where == "userinfo" {
+							m.UI.Status = status
+						}
+					}
+					m.Note = fmt.Sprintf("corpus: response headers %v on %s, status %d", hs[:1], where, status)
+					gs = append(gs, group{Cfg: cfg, Members: []scenario{m}})
+				}
+			}
+		}
+		for wire := 1; wire < wireCount; wire++ {
+			for _, where := range []string{"token", "userinfo"} {
+				m := login(wire, "alice@example.com", claims("alice@example.com", `,"email_verified":true`), ui("alice@example.com", `,"email_verified":true,"username":"u"`))
+				if where == "token" {
+					m.Tok.Wire = wire
+				} else {
+					m.UI.Wire = wire
+				}
+				m.Note = "corpus: framing " + wireName[wire] + " on " + where
+				gs = append(gs, group{Cfg: cfg, Members: []scenario{m}})
+			}
+		}
 	}
 	return gs
 }
